@@ -390,6 +390,95 @@ fn cluster_run(n: usize, arbiter_at: usize, seed0: u64, nconf: usize, v: &Verdic
     c.shutdown();
 }
 
+/// A pending conflict has to survive snapshots and a restart: the key stays blocked (later writes queue behind the
+/// conflict) and the next arbiter that registers is sent it. Real files, the start-up sequence of main.rs.
+fn restart_part(v: &Verdicts) -> u64 {
+    use crate::common::node::{Node, NodeOpts};
+    let mut cases = 0u64;
+    for persisted_before in [true, false] {
+        for reclaim in [false, true] {
+            for queued in [1usize, 2] {
+                for later_versioned in [false, true] {
+                    cases += 1;
+                    let dir = fresh_dir("c13-restart");
+                    let start = |dir: &str| -> Node {
+                        let mut o = NodeOpts::simple(dir);
+                        o.load_from_disk = true;
+                        let n = Node::start(o);
+                        n.set_role(nundb::bo::ClusterRole::Primary);
+                        n
+                    };
+                    let mut trace: Vec<String> = vec![];
+                    let node = start(&dir);
+                    let dbs = node.dbs.clone();
+                    let mut adm = Session::new();
+                    let mut call = |s: &mut Session, dbs: &std::sync::Arc<nundb::bo::Databases>, l: &str, trace: &mut Vec<String>| -> crate::common::session::Reply {
+                        let r = s.call(dbs, l);
+                        trace.push(format!("{} -> {} {:?}", l, r.resp, r.pushed));
+                        r
+                    };
+                    call(&mut adm, &dbs, "auth admin pwd", &mut trace);
+                    call(&mut adm, &dbs, "create-db arb tok arbiter", &mut trace);
+                    call(&mut adm, &dbs, "use-db arb tok", &mut trace);
+                    call(&mut adm, &dbs, "set k one", &mut trace);
+                    call(&mut adm, &dbs, "set k two", &mut trace);
+                    if persisted_before {
+                        call(&mut adm, &dbs, "snapshot false arb", &mut trace);
+                        nundb::disk_ops::verif_declutter(&dbs);
+                    }
+                    let mut arbiter = Session::new();
+                    call(&mut arbiter, &dbs, "use-db arb tok", &mut trace);
+                    call(&mut arbiter, &dbs, "arbiter", &mut trace);
+                    for q in 0..queued {
+                        call(&mut adm, &dbs, &format!("set-safe k 0 proposed{}", q), &mut trace);
+                    }
+                    arbiter.drain();
+                    // the conflict stays unresolved; the arbiter leaves; the state is snapshotted; the node restarts
+                    arbiter.disconnect(&dbs);
+                    call(&mut adm, &dbs, &format!("snapshot {} arb", reclaim), &mut trace);
+                    nundb::disk_ops::verif_declutter(&dbs);
+                    let before_value = adm_get(&mut adm, &dbs, "k");
+                    drop(node);
+                    if let Err(why) = crate::c06::load_probe(&dir) {
+                        v.report(json!({"check": "arbiter", "mode": "restart", "problem": "restart-fails-with-a-pending-conflict"}), json!({"trace": trace, "msg": why}));
+                        continue;
+                    }
+                    let node2 = start(&dir);
+                    let dbs2 = node2.dbs.clone();
+                    let mut adm2 = Session::new();
+                    call(&mut adm2, &dbs2, "auth admin pwd", &mut trace);
+                    call(&mut adm2, &dbs2, "use-db arb tok", &mut trace);
+                    let after_value = adm_get(&mut adm2, &dbs2, "k");
+                    let mut problems: Vec<(&str, String)> = vec![];
+                    if after_value != before_value {
+                        problems.push(("key-in-conflict-changed-by-the-restart", format!("{:?} -> {:?}", before_value, after_value)));
+                    }
+                    // a later write must queue behind the pending conflict (it needs an arbiter: one registers first)
+                    let mut arbiter2 = Session::new();
+                    call(&mut arbiter2, &dbs2, "use-db arb tok", &mut trace);
+                    let reg = call(&mut arbiter2, &dbs2, "arbiter", &mut trace);
+                    let notices: Vec<Notice> = reg.pushed.iter().chain(arbiter2.drain().iter()).filter_map(|l| parse_notice(l)).collect();
+                    if notices.len() != queued {
+                        problems.push(("arbiter-registering-after-the-restart-not-sent-the-pending-conflicts", format!("{} pending before the restart, {} notices: {:?}", queued, notices.len(), notices.iter().map(|n| n.raw.clone()).collect::<Vec<_>>())));
+                    }
+                    let later = call(&mut adm2, &dbs2, if later_versioned { "set-safe k 1 later" } else { "set k later" }, &mut trace);
+                    if !later.resp.starts_with("Error $$conflitct unresolved") {
+                        problems.push(("write-to-a-key-in-conflict-applied-after-the-restart-instead-of-queued", later.resp.clone()));
+                    } else if adm_get(&mut adm2, &dbs2, "k") != before_value {
+                        problems.push(("queued-write-changed-the-key-before-resolution", adm_get(&mut adm2, &dbs2, "k")));
+                    }
+                    for (p, d) in problems {
+                        v.report(json!({"check": "arbiter", "mode": "restart", "problem": p, "key_persisted_before_the_conflict": persisted_before}), json!({"trace": trace, "detail": d, "snapshot_reclaims": reclaim, "conflicts_queued": queued}));
+                    }
+                    drop(node2);
+                    let _ = std::fs::remove_dir_all(&dir);
+                }
+            }
+        }
+    }
+    cases
+}
+
 pub fn run(tier: &str) -> i32 {
     std::env::set_var("NUN_ELECTION_TIMEOUT", "30");
     quiet_panics();
@@ -467,6 +556,8 @@ pub fn run(tier: &str) -> i32 {
         }
     });
     let s = st.into_inner().unwrap();
+    let restart_cases = restart_part(&v);
+    ev.set("pending_conflict_across_snapshot_and_restart_cases", json!(restart_cases));
     ev.evaluations = s.sequences + s.cluster_runs;
     ev.distinct_nontrivial = s.shapes.len() as u64;
     ev.rule = format!("single node: {} systematic sequences (every sequence of {} steps over {{set, stale set-safe, current set-safe, arbiter connect, arbiter disconnect, resolve, get}} after two base writes, followed by connect + resolves + a final write) + {} random sequences of 4-14 steps over 2 keys; a scripted arbiter answers the notices it received (echoing op id and version); a conflict-queue model is checked after every step. Cluster: {} Engine N runs (2-3 nodes, arbiter on the primary or on a secondary, 1-3 conflicting writes, resolves oldest first). distinct_nontrivial = distinct compressed sequences of step outcomes (write-ok / conflict with no, connected or absent arbiter / connect with or without pending / resolve last or with more queued)", systematic, depth, n_random, s.cluster_runs);
